@@ -12,6 +12,8 @@ import CalicoVerif.Proofs.C01Lbl
 import CalicoVerif.Proofs.C01PolAct
 import CalicoVerif.Proofs.C01Fresh
 import CalicoVerif.Proofs.C01ProfTab
+import CalicoVerif.Proofs.C01Mem
+import CalicoVerif.Proofs.C01Ipsets
 /-!
 C01 — Felix's computed dataplane state depends only on current datastore state.
 
@@ -44,16 +46,25 @@ What is PROVED (all histories, all flush placements):
   graph.  The graph's resolver is a `C03.runL` run and the `endpointUpdate` calls are its last-emitted map,
   so after the final flush every endpoint's declared tier list satisfies C03's `IsSpec` w.r.t. the FINAL
   tier datastore and the resolver's policy table / match relation; the resolver never panics;
-* `calc_history_independent_partial` — the end-to-end statement `accumulate (run h) = fresh (lastState h)`,
-  derived from Theorem A, the theorems above and C03's `isSpec_determines_list` under the explicit, NAMED
-  `RemainingContract`.  Its fields are what remains: IP-set members (C04 `ipset_members_eq_spec` /
-  `members_once_and_alternate`), "ARC bookkeeping = datastore" for active policies / profiles and for the
-  resolver's match relation (its endpoint and policy tables are PROVED to be the datastore's:
-  `resolver_tables_eq_datastore_partial`), the well-formedness facts needed (distinct tie-break strings,
-  in-sync seen, consistent numbering), and the purely specification-level fact that `fresh`'s
-  per-endpoint list satisfies `IsSpec`.  The contract is NOT proved here; it is checked on every
-  generated history by the driver (the model's accumulated state is compared with `fresh` of the
-  datastore at every `check` line, and with the REAL graph after every flush).
+* `resolver_tables_eq_datastore_partial`, `resolver_matched_eq_datastore_partial` — the resolver's endpoint
+  table, policy table and match relation ARE the datastore's (label-index tables = datastore, C07's
+  invariant, numbering) for well-formed histories;
+* `active_policies_eq_spec_partial`, `active_profiles_eq_spec_partial` — the declared policies / profiles are
+  exactly the specification's (a policy iff its selector matches a local endpoint, a profile iff a local
+  endpoint lists it; current rules / deny stand-in);
+* `fresh_tier_list_isSpec` — the specification's own per-endpoint list satisfies C03's `IsSpec`;
+* `member_index_eq_c04_spec_partial`, `declared_ipsets_eq_spec_partial` — the MEMBER INDEX END: C04's invariant
+  carried through the graph gives the member half of the IP-set protocol and "declared content = C04
+  `memberSpec` of the index's tables"; those tables are the datastore's / the rule scanner's and `memberSpec`
+  for them is the specification's `DS.members`; the declared sets are `DS.activeSets`;
+* `calc_history_independent_partial` — the END-TO-END statement `accumulate (run h) = fresh (lastState h)`,
+  derived from all of the above.  Its hypothesis `RemainingContract` no longer contains ANY obligation of a
+  graph node: it consists of well-formedness facts only — `idInj` (the IP-set id hash does not collide),
+  `keyU` (distinct policy tie-break strings), `sawInSync`, `wellFormed` (consistent numbering; every policy
+  selector passes `selector.Validate`, i.e. what the ValidationFilter lets through; network-set prefixes fit
+  the address width).  `_partial` = the UNMODELLED nodes (routes/VTEPs, …, see Model/C01 header).  The model
+  and `fresh` are tied to the REAL ValidationFilter→CalcGraph→EventSequencer by the correspondence run (after
+  every flush, and `accumulate = fresh(lastState)` at every `check` line).
 -/
 namespace CalicoVerif.C01
 open CalicoVerif C02
@@ -157,17 +168,29 @@ theorem selParses_of_valid {u : Upd} (h : selValid u) : selParses u := by
       rfl
   | _ => trivial
 
-/-- WELL-FORMED history: consistent numbering, and every policy selector passes `selector.Validate` -/
+/-- WELL-FORMED history: consistent numbering, every policy selector passes `selector.Validate`, and
+network-set prefixes are no longer than the address width (`netsOk`; every `net.IPNet` satisfies it) -/
 def WellFormed (N : Numbering) (h : List HStep) : Prop :=
   ∀ st ∈ h, match st with
-    | .upd u => N.updOk u ∧ selValid u
+    | .upd u => N.updOk u ∧ selValid u ∧ netsOk u
     | _ => True
+
+theorem WellFormed.netsOk {N : Numbering} {h : List HStep} (hw : WellFormed N h) :
+    ∀ st ∈ h, match st with
+      | .upd u => C01.netsOk u
+      | _ => True := by
+  intro st hst
+  have := hw st hst
+  cases st with
+  | upd u => exact this.2.2
+  | inSync => trivial
+  | flush => trivial
 
 theorem WellFormed.histOk {N : Numbering} {h : List HStep} (hw : WellFormed N h) : N.histOk h := by
   intro st hst
   have := hw st hst
   cases st with
-  | upd u => exact ⟨this.1, selParses_of_valid this.2⟩
+  | upd u => exact ⟨this.1, selParses_of_valid this.2.1⟩
   | inSync => trivial
   | flush => trivial
 
@@ -179,25 +202,22 @@ theorem WellFormed.stepOk {N : Numbering} {h : List HStep} (hw : WellFormed N h)
   | inSync => trivial
   | flush => trivial
 
-/-- What REMAINS to be discharged for a history (each field names the node theorem that owes it). -/
+/-- The hypotheses of the end-to-end theorem.  NOTHING about the graph's behaviour is assumed any more — every
+node obligation is discharged (see the theorems of this file); what is left are WELL-FORMEDNESS facts about the
+history and the id function.  (The name is kept from the time it listed the open node obligations.) -/
 structure RemainingContract (H : IdFn) (s : Bool) (h : List HStep) : Prop where
-  /-- (b) C04 `members_once_and_alternate`: member callbacks add only absent / remove only present
-  members of a declared set -/
-  memberCalls : memberValidAll {} (run H (Graph.new s) (h ++ [.flush])).1.calls
-  /-- (b) C04 `ipset_members_eq_spec` (+ the domain, proved above, + injectivity of `showMember`) -/
-  ipsets : (decl (run H (Graph.new s) (h ++ [.flush])).1).ipsets = (fresh H s (lastState h)).toDP.ipsets
-  /-- (c) ENDPOINTS — C03's `resolver_eq_spec` / `isSpec_determines_list` are plugged in
-  (`declared_endpoints_eq_resolver_spec_partial`, `endpoints_of`); what is left of it:
-  the policy names in play have pairwise different `name/namespace/kind` strings (C03's `KeyU`; true of
-  validated Calico names, which contain no '/') … -/
+  /-- the IP-set id function does not collide (`IPSetData.UniqueID()` is a hash: "hash collisions aside") -/
+  idInj : ∀ d d' : IpSetDef, H d = H d' → d = d'
+  /-- the policy keys in the history have pairwise different `name/namespace/kind` tie-break strings (C03's
+  `KeyU`; true of validated Calico names, which contain no '/') -/
   keyU : C03.KeyU (histKeys h)
-  /-- … the history contains the in-sync signal (the resolver emits nothing before it) … -/
+  /-- the history contains the in-sync signal (before it the resolver emits nothing, so "what a fresh Felix
+  has emitted once in sync" is not yet comparable) -/
   sawInSync : HStep.inSync ∈ h
-  /-- … the history is WELL-FORMED: the harness's endpoint / policy numbers are consistent (number ↦ real key
-  injective, locality a function of the number) and every policy selector passes `selector.Validate` — which
-  is exactly what the ValidationFilter demands of a policy it lets through (`validate:"selector"`).  Then the
-  resolver's endpoint table, policy table and match relation ARE the datastore's
-  (`resolver_tables_eq_datastore_partial`, `resolver_matched_eq_datastore_partial`, proved) … -/
+  /-- the history is WELL-FORMED (`WellFormed`): the harness's endpoint / policy numbers are consistent with the
+  real keys (number ↦ key injective, locality a function of the number — the host name is part of the key);
+  every policy selector passes `selector.Validate`, which is exactly what the ValidationFilter demands of a
+  policy it lets through (`validate:"selector"`); network-set prefixes fit the address width -/
   wellFormed : ∃ N : Numbering, WellFormed N h
 
 /-- RESOLVER TABLES = DATASTORE (all consistently numbered histories, any flush placement): after the
@@ -248,6 +268,24 @@ theorem fresh_tier_list_isSpec (h : List HStep) (N : Numbering) (hN : ∀ st ∈
     C03.IsSpec (lastState h).tiers (lastState h).polMetas (lastState h).matched e
       (C03.filterTiers (lastState h).matched e (lastState h).sortedTiers) :=
   fresh_isSpec_of_hist h N hN hK e
+
+/-- MEMBER INDEX END (C04 plugged into the composed graph; all histories whose network-set prefixes fit the
+address width, any flush placement): (i) the member half of the IP-set protocol is respected — every
+`OnIPSetMemberAdded` is for a declared set and an absent member, every `OnIPSetMemberRemoved` for a present one;
+(ii) every declared IP set holds exactly the string images (under the injective `showMember`) of the members
+C04's specification `memberSpec` assigns to it for the index's current tables: contributed by an endpoint /
+network set whose effective labels match the set's selector and, with overlap suppression, not strictly inside
+another contributed CIDR.  Proof: C04's invariant `Inv` carried through every graph function; each callback
+of one index operation is for a set the index knows (`C01Idx`), which the graph has declared; strict replay
+of the callbacks (C04 `members_once_and_alternate`) gives per-call validity. -/
+theorem member_index_eq_c04_spec_partial (H : IdFn) (s : Bool) (h : List HStep)
+    (hn : ∀ st ∈ h, match st with
+      | .upd u => netsOk u
+      | _ => True) :
+    memberValidAll {} (run H (Graph.new s) h).1.calls ∧
+    ∀ id f, (decl (run H (Graph.new s) h).1).ipsets id = some f → ∀ str,
+      f str = true ↔ ∃ m, C04.memberSpec matchSel (run H (Graph.new s) h).1.idx id m ∧ showMember m = str :=
+  member_index_in_graph H s h hn
 
 /-- RESOLVER END (C03 plugged into the composed graph; all histories over policy keys `K` with pairwise
 different tie-break strings, any flush placement, containing the in-sync signal): after the final flush
@@ -331,6 +369,40 @@ theorem active_profiles_eq_spec_partial (H : IdFn) (s : Bool) (h : List HStep) (
   rw [mget_map_val (fun _ (v : RulesIn) => (⟨v.tag, refsOf H v⟩ : Rules))]
   cases mget (lastState h).activeProfs p <;> rfl
 
+/-- DECLARED IP SETS = SPECIFICATION (all well-formed histories, collision-free id function, any flush placement):
+after the final flush the declared IP sets are exactly the sets referenced by the specification's active
+policies / profiles (`DS.activeSets`), and each holds exactly the string images of `DS.members`: the members
+contributed by every endpoint / network set in the datastore whose effective labels (own, then the listed
+profiles' in order) match the set's selector — for a named-port set the (address, protocol, port) combinations
+of its matching ports — and, with overlap suppression, not strictly inside another contributed CIDR.
+Proof: `member_index_eq_c04_spec_partial`; the member index's tables are the datastore's / the rule scanner's
+(`XInv`); C04's `memberSpec` for those tables is `DS.members` (`memberSpec_iff`); the rule scanner's in-use sets
+are the specification's (`declared_eq_rulescanner_partial` + the two ACTIVE … = SPEC theorems). -/
+theorem declared_ipsets_eq_spec_partial (H : IdFn) (s : Bool) (h : List HStep) (N : Numbering)
+    (hw : WellFormed N h) (hinj : ∀ d d' : IpSetDef, H d = H d' → d = d') :
+    (decl (run H (Graph.new s) (h ++ [.flush])).1).ipsets = (fresh H s (lastState h)).toDP.ipsets := by
+  have hN := hw.stepOk
+  have hx := stable_flush (xInv_stable N H s _) (xInv_run h (xInv_new N H s) hN)
+  have hn' : ∀ st ∈ h ++ [HStep.flush], match st with
+      | .upd u => C01.netsOk u
+      | _ => True := by
+    intro st hst
+    rcases List.mem_append.mp hst with h1 | h1
+    · exact hw.netsOk st h1
+    · simp only [List.mem_singleton] at h1; subst h1; trivial
+  have hc := cInv_run (H := H) (h ++ [.flush]) (cInv_new H s) hn'
+  have ht := tabInv_flush (tabInv_run H h (tabInv_new N s) hN)
+  have hpi := pInv_frame (pInv_run H h (pInv_new N s) hN) (arcProf_flush (run H (Graph.new s) h).1)
+  rw [← run_snoc_flush] at hx ht hpi
+  have hd := dsNodup_lastState h {} ⟨by simp [mkeys], by simp [mkeys]⟩
+  have hnn := netsets_nodup_lastState h {} (by simp [mkeys])
+  have hpk : (mkeys (lastState h).activePols).Nodup :=
+    (nodup_keys_filterMap _ (lastState h).pols (polKeys_nodup (tabInv_run H h (tabInv_new N s) hN).polsConf hd.pols)).1
+  funext id
+  exact ipsets_eq_fresh hx hc.rs hc.ii hd hnn hinj
+    (fun k => active_policies_eq_datastore H s h N hw.histOk k) hpk
+    (fun p => activeProfs_eq_ds hpi ht hd (active_profiles_eq_c05_spec_partial H s (h ++ [.flush]) p)) id
+
 /-- END-TO-END (partial: modelled nodes only, and under the named `RemainingContract`): for every
 history `h` of datastore updates (duplicates, reverts, spurious deletes, invalid values = deletes) with
 flushes anywhere, followed by a final flush, the dataplane state described by everything emitted
@@ -339,8 +411,14 @@ protocol and "declared policies/profiles = RuleScanner table" are PROVED (above)
 theorem calc_history_independent_partial (H : IdFn) (s : Bool) (h : List HStep)
     (hc : RemainingContract H s h) :
     accumulate (run H (Graph.new s) (h ++ [.flush])).2 = (fresh H s (lastState h)).toDP := by
-  have hvalid : validAll {} (run H (Graph.new s) (h ++ [.flush])).1.calls :=
-    validAll_of _ _ (ipset_add_remove_valid_partial H s (h ++ [.flush])) hc.memberCalls
+  have hvalid : validAll {} (run H (Graph.new s) (h ++ [.flush])).1.calls := by
+    obtain ⟨N, hN⟩ := hc.wellFormed
+    refine validAll_of _ _ (ipset_add_remove_valid_partial H s (h ++ [.flush]))
+      (member_index_eq_c04_spec_partial H s (h ++ [.flush]) ?_).1
+    intro st hst
+    rcases List.mem_append.mp hst with h1 | h1
+    · exact hN.netsOk st h1
+    · simp only [List.mem_singleton] at h1; subst h1; trivial
   rw [accumulate_eq_declared_partial H s h hvalid]
   have hd := declared_eq_rulescanner_partial H s (h ++ [.flush])
   simp only [] at hd
@@ -359,7 +437,10 @@ theorem calc_history_independent_partial (H : IdFn) (s : Bool) (h : List HStep)
     exact endpoints_of H s h hc.keyU hc.sawInSync ht.1 ht.2
       (resolver_matched_eq_datastore_partial H s h N hN)
       (fun e _ => fresh_tier_list_isSpec h N hN.stepOk hc.keyU e) e
-  exact DP.ext' hc.ipsets hpol hprof hep ho.1 ho.2.1 ho.2.2
+  have hips : (decl (run H (Graph.new s) (h ++ [.flush])).1).ipsets = (fresh H s (lastState h)).toDP.ipsets := by
+    obtain ⟨N, hN⟩ := hc.wellFormed
+    exact declared_ipsets_eq_spec_partial H s h N hN hc.idInj
+  exact DP.ext' hips hpol hprof hep ho.1 ho.2.1 ho.2.2
 
 /-- RULE SCANNER node theorem (all histories of OnPolicyActive/Inactive, OnProfileActive/Inactive):
 `key` references exactly the IP sets of its latest rules; the OnIPSetActive / OnIPSetInactive events are a
@@ -403,7 +484,7 @@ def exEp (labels : C04.Labels) : EpVal :=
 
 def exHist : List HStep :=
   [.upd (.tier "default" (some (some 100, "Deny"))),
-   .upd (.policy 0 ⟨"pol", "", "gnp"⟩ (some exPol)),
+   .upd (.policy 0 ⟨"pol0", "", "gnp"⟩ (some exPol)),
    .upd (.endpoint 0 (.wep "w0") true (some (exEp [("b", "1")]))),
    .flush,
    .upd (.profLabels "p0" (some [("a", "x")])),       -- now the policy matches through the profile
@@ -416,9 +497,92 @@ example : (run exH (Graph.new true) (exHist ++ [.flush])).1.panicked = false := 
 example : (run exH (Graph.new true) (exHist ++ [.flush])).2.length = 7 := by decide
 /-- … in the final datastore the policy matches the local endpoint through the inherited label,
 profile `p0` is referenced but has no rules (deny stand-in), one IP set is needed -/
-example : (lastState exHist).matched = [(⟨"pol", "", "gnp"⟩, .wep "w0")] := by decide
+example : (lastState exHist).matched = [(⟨"pol0", "", "gnp"⟩, .wep "w0")] := by decide
 example : (lastState exHist).activeProfs = [("p0", dummyDropRules)] := by decide
 example : ((lastState exHist).activeSets exH).map (·.1) = ["has(b)/0/"] := by decide
 example : ((lastState exHist).members true ⟨"has(b)".toList, 0, ""⟩).map showMember = ["c4/167772161/32"] := by decide
+
+
+/-! ### non-vacuity of the hypotheses: `RemainingContract` holds for the example history with a collision-free
+id function, so the end-to-end theorem applies to it -/
+
+/-- a collision-free id function: length-prefixed encoding of (selector, protocol, port) -/
+def encDef (d : IpSetDef) : List Char :=
+  showNatL d.sel.length ++ ':' :: (d.sel ++ (showNatL d.proto ++ ':' :: d.port.toList))
+def injH : IdFn := fun d => String.ofList (encDef d)
+
+theorem colon_not_mem_showNatL (n : Nat) : ':' ∉ showNatL n := by
+  unfold showNatL
+  intro h
+  obtain ⟨d, hd, he⟩ := List.mem_map.mp h
+  have hlt := digitsLE_lt _ _ d (List.mem_reverse.mp hd)
+  have key : ∀ a : Fin 10, Char.ofNat (48 + a.val) ≠ ':' := by decide
+  exact key ⟨d, hlt⟩ he
+
+theorem injH_inj : ∀ d d' : IpSetDef, injH d = injH d' → d = d' := by
+  intro d d' h
+  have h1 : encDef d = encDef d' := String.ofList_inj.mp h
+  unfold encDef at h1
+  obtain ⟨e1, e2⟩ := append_sep_inj (colon_not_mem_showNatL _) (colon_not_mem_showNatL _) h1
+  have hlen : d.sel.length = d'.sel.length := showNatL_inj e1
+  obtain ⟨e3, e4⟩ := List.append_inj e2 hlen
+  obtain ⟨e5, e6⟩ := append_sep_inj (colon_not_mem_showNatL _) (colon_not_mem_showNatL _) e4
+  obtain ⟨s1, p1, q1⟩ := d
+  obtain ⟨s2, p2, q2⟩ := d'
+  simp only [] at e3 e5 e6
+  rw [e3, showNatL_inj e5, String.toList_inj.1 e6]
+
+/-- the numbering of the example: endpoint `n` is `w<n>` on the local host, policy `n` is `pol<n>` -/
+def exNumbering : Numbering where
+  ek n := .wep (String.ofList ('w' :: showNatL n))
+  lc _ := true
+  pk n := ⟨String.ofList ('p' :: 'o' :: 'l' :: showNatL n), "", "gnp"⟩
+  ekInj a b h := by
+    simp only [EpKey.wep.injEq, String.ofList_inj, List.cons.injEq, true_and] at h
+    exact showNatL_inj h
+  pkInj a b h := by
+    simp only [PolicyKey.mk.injEq, String.ofList_inj, List.cons.injEq, true_and, and_true] at h
+    exact showNatL_inj h
+
+theorem exHist_contract : RemainingContract injH true exHist := by
+  refine ⟨injH_inj, ⟨?_⟩, by simp [exHist], ⟨exNumbering, ?_⟩⟩
+  · -- the two policy keys in play: the zero key and `pol0`
+    have hk : ∀ k, histKeys exHist k → k = default ∨ k = ⟨"pol0", "", "gnp"⟩ := by
+      intro k hk
+      rcases hk with h | ⟨nid, v, h⟩
+      · exact Or.inl h
+      · simp [exHist] at h
+        exact Or.inr h.2.1
+    intro a b ha hb hab
+    rcases hk a ha with rfl | rfl <;> rcases hk b hb with rfl | rfl
+    · rfl
+    · exact absurd hab (by decide)
+    · exact absurd hab (by decide)
+    · rfl
+  · intro st hst
+    simp only [exHist, List.mem_cons, List.not_mem_nil, or_false] at hst
+    rcases hst with rfl | rfl | rfl | rfl | rfl | rfl | rfl | rfl | rfl | rfl
+    · exact ⟨trivial, trivial, trivial⟩
+    · refine ⟨?_, ?_, trivial⟩
+      · show (⟨"pol0", "", "gnp"⟩ : PolicyKey) = exNumbering.pk 0
+        decide
+      · show C06.validate exPol.sel = .ok ()
+        rfl
+    · refine ⟨⟨?_, rfl⟩, trivial, trivial⟩
+      show EpKey.wep "w0" = exNumbering.ek 0
+      decide
+    · trivial
+    · exact ⟨trivial, trivial, trivial⟩
+    · trivial
+    · trivial
+    · exact ⟨trivial, trivial, trivial⟩
+    · exact ⟨trivial, trivial, trivial⟩
+    · exact ⟨trivial, trivial, trivial⟩
+
+/-- hence, with NO further assumption: everything the model emits for the example history accumulates to what a
+fresh Felix emits for its final datastore state -/
+theorem exHist_history_independent :
+    accumulate (run injH (Graph.new true) (exHist ++ [.flush])).2 = (fresh injH true (lastState exHist)).toDP :=
+  calc_history_independent_partial injH true exHist exHist_contract
 
 end CalicoVerif.C01
